@@ -259,6 +259,46 @@ Check (eq_refl : run_cycles = fix run_cycles lz_compress cap sigs time vb e cs :
 
 
 
+
+(* the signal part of a file as a whole: snapshot section, cycle sections, directory, tailer *)
+Check ghw_body_run :
+  forall lz_compress cap be sigs ps t8 effs ss dt vb e f,
+  length t8 = 8%nat -> length ps = length sigs ->
+  snap_effs sigs 0 ps = Some effs -> snap_ok sigs 0 ps -> consistent sigs vb ->
+  Forall (csec_ok sigs) ss -> dir_tail_ok be dt -> (length ss + 3 <= f)%nat ->
+  sections lz_compress cap f be sigs vb e
+           (SNP ++ [0; 0; 0; 0] ++ t8 ++ concat ps ++ ESN ++ concat (map csec_bytes ss) ++ dt)
+  = do e1 <- time_change lz_compress cap e (read_int be t8);
+    do '(vb2, e2) <- run_effs vb e1 effs;
+    do '(vb3, e3) <- finish_time_step vb2 e2;
+    match run_sections lz_compress cap be sigs vb3 e3 ss with
+    | Ok (Some (_, e')) => Ok (Some e')
+    | Ok None => Ok None
+    | Err => Err
+    | Panic => Panic
+    end.
+Check (eq_refl : run_sections = fix run_sections lz_compress cap be sigs vb e ss :=
+  match ss with
+  | [] => Ok (Some (vb, e))
+  | s :: r =>
+    do x <- run_cycles lz_compress cap sigs (read_int be (fst s)) vb e (snd s);
+    match x with
+    | Some (vb', e') => run_sections lz_compress cap be sigs vb' e' r
+    | None => Ok None
+    end
+  end).
+Check (eq_refl : csec_bytes = fun s => CYC ++ fst s ++ concat (map gcyc_bytes (snd s)) ++ ECY).
+Check (eq_refl : csec_ok = fun sigs s =>
+  length (fst s) = 8%nat /\ snd s <> [] /\ Forall gdt_ok (snd s) /\
+  Forall (fun c => grecs_ok sigs 0 (gc_recs c) /\ effs_of sigs 0 (gc_recs c) <> None) (snd s) /\
+  (forall c, In c (removelast (snd s)) -> (0 <= gc_dt c)%Z) /\ (gc_dt (last (snd s) (mk_gcyc [] [] 0)) < 0)%Z).
+Check (eq_refl : dir_tail_ok = fun be dt =>
+  exists h4 nb entries tail junk,
+    dt = DIR ++ h4 ++ nb ++ entries ++ EOD ++ TAI ++ tail ++ junk /\
+    length h4 = 4%nat /\ length nb = 4%nat /\ read_int be nb < 2147483648 /\
+    length entries = (N.to_nat (read_int be nb) * 8)%nat /\
+    dir_entries_ok be (N.to_nat (read_int be nb)) (entries ++ EOD ++ TAI ++ tail ++ junk) = true /\ (8 <= length tail)%nat).
+
 (* the snapshot section with signals of every type: `SNP\0`, four zero bytes, the time, one value per signal in signal order,
    `ESN\0` - the time stamp, the values as store operations / buffer updates in signal order, the end of the step *)
 Check section_snapshot :
@@ -438,6 +478,7 @@ Print Assumptions cycle_vectors_step.
 Print Assumptions cycle_loop_vectors.
 Print Assumptions cycle_signals_records.
 Print Assumptions cycle_loop_records.
+Print Assumptions ghw_body_run.
 Print Assumptions section_cycles.
 Print Assumptions section_snapshot.
 Print Assumptions snapshot_records.
